@@ -129,6 +129,7 @@ func c18LimitsFor(tier string) c18Limits {
 type faultCombo struct {
 	kind             string
 	withData, sticky bool
+	thenEOF          bool // reported once, then the stream just ends
 }
 
 func allFaultCombos() []faultCombo {
@@ -136,8 +137,9 @@ func allFaultCombos() []faultCombo {
 	for _, k := range simio.ReadFaultKinds {
 		for _, wd := range []bool{false, true} {
 			for _, st := range []bool{true, false} {
-				cs = append(cs, faultCombo{k, wd, st})
+				cs = append(cs, faultCombo{k, wd, st, false})
 			}
+			cs = append(cs, faultCombo{k, wd, false, true})
 		}
 	}
 	return cs
@@ -737,7 +739,7 @@ func RunC18(cfg Config) (*ShardResult, error) {
 						for _, g := range grans {
 							p := granPlan(g, dr)
 							p.Medium = medium
-							p.Fault = &simio.Fault{Offset: ok.k, Kind: c.kind, WithData: c.withData, Sticky: c.sticky}
+							p.Fault = &simio.Fault{Offset: ok.k, Kind: c.kind, WithData: c.withData, Sticky: c.sticky, ThenEOF: c.thenEOF}
 							key := Key64("read", dh, reader, planKey(p))
 							if !cfg.Mine(key) {
 								continue
@@ -752,8 +754,11 @@ func RunC18(cfg Config) (*ShardResult, error) {
 								if c.withData {
 									res.Probes["fault_with_data"]++
 								}
-								if !c.sticky {
+								if !c.sticky && !c.thenEOF {
 									res.Probes["fault_transient"]++
+								}
+								if c.thenEOF {
+									res.Probes["fault_then_eof"]++
 								}
 								if o.Class == "ok" {
 									res.Probes["fault_fired_result_complete"]++
